@@ -14,23 +14,23 @@ CLAIMED = {
          "Exploration: (1) go_ident/go_type_name_for/ref_struct_name/array_helper_fn_name/trait_impl_fn_name/inherent_method_fn_name on every identifier over {A,B,a,b,_,1} (len<=3/4) and every pair/(trait,type)/(type,method) combination: distinct entities must get distinct Go identifiers, user names must not come out as Go keywords/predeclared names; (2) 28 directed programs (two of them across packages / through dyn), one per collision family, must build and print the expected output; (1b) 120k/600k pseudo-random tuple types of depth <=5 (Vec/Ref/array/function components, package-qualified and generic-instance names): every struct name a legal Go identifier, distinct types distinct names; (3) ~50k/800k generated programs whose function/type/field/local names come from pools of Go keywords, predeclared identifiers, runtime-helper and temporary look-alikes must type-check as Go and behave as the (name-independent) reference interpreter says.",
          PROG_NOTE, "DESIGN.md §5 C19"),
  "C03": ("generated accepted programs re-type-checked at every IR stage by independent checkers; single ill-typed statement injected at random positions must be rejected",
-         "Exploration: (a) ~54k (quick) / ~880k (thorough) accepted generated programs: four independent IR type checkers (Core, Mono, Lift, ANF) must find every variable bound with the binder's type, every call/constructor/projection/operator/branch consistent with declared signatures, and no TParam/TVar/TApp residue after monomorphisation; (b) ~40k / 600k programs with one ill-typed statement of 28 kinds inserted at a random position in a random nested block must be rejected with an error diagnostic (never accepted, never a crash).",
+         "Exploration: (a) ~54k (quick) / ~880k (thorough) accepted generated programs: four independent IR type checkers (Core, Mono, Lift, ANF) must find every variable bound with the binder's type, every call/constructor/projection/operator/branch consistent with declared signatures, and no TParam/TVar/TApp residue after monomorphisation (a third of the programs with traits, impls, all method call forms, bounded generics and dyn values: dyn coercions and dyn calls are checked too); (b) ~40k / 600k programs with one ill-typed statement inserted at a random position in a random nested block (fixed kinds, systematic one-point type mutations, occurs-check shapes, pattern/scrutinee mismatches, trait-method calls with a wrong argument type or count on concrete and dyn receivers, coercion to dyn without an impl, local annotations naming unknown types or applying a nominal type to the wrong number of arguments) must be rejected with an error diagnostic (never accepted, never a crash); (c) twins: 1.5k / 20k two- or three-package projects in which a struct/enum name is declared in two packages and a value of one is used where the other is required (5 sites, same or different shapes): rejected, and the control with the right type accepted.",
          "Trusted: irck (sensitivity measured by 26k injected IR corruptions, 99.3% caught); the catalogue of ill-typed statements follows the language description; ill-typedness that depends on inference order is not injected.",
          "DESIGN.md §5 C03"),
  "C01": ("differential PBT: reference interpreter of the generated typed program vs Go-subset interpreter of the emitted Go; type-directed program generator; corpus outputs recorded from real Go",
-         "Exploration: ~76k (quick) / ~1.1M (thorough) type-directed random programs in three size classes and five generator biases are compiled; stdout and end state (normal exit / division by zero / index out of range / failed match) of the emitted Go under miniGo must equal refsem's run of the source model; additionally the Go currently emitted for every corpus program must reproduce the output recorded from real Go.",
+         "Exploration: ~76k (quick) / ~1.1M (thorough) type-directed random programs in three size classes and five generator biases are compiled; stdout and end state (normal exit / division by zero / index out of range / failed match) of the emitted Go under miniGo must equal refsem's run of the source model (a third of the programs with traits, trait/inherent impls, every method call form, bounded generics and `dyn Tr` values; refsem dispatches on the receiver's run-time type); additionally the Go currently emitted for every corpus program must reproduce the output recorded from real Go.",
          PROG_NOTE, "DESIGN.md §5 C01"),
  "C02": ("generated programs -> emitted Go text judged by an independent Go-subset parser and type checker",
-         "Exploration: the same generator under all biases; the emitted Go text must parse and type-check under miniGo's checker (declare-before-use, redeclaration, assignability, call/return/literal typing, unused variables/imports, constant overflow and constant division by zero, missing return, type-switch rules, array lengths).",
+         "Exploration: the same generator under all biases; the emitted Go text must parse and type-check under miniGo's checker (declare-before-use, redeclaration, assignability, call/return/literal typing, unused variables/imports, constant overflow and constant division by zero, missing return, type-switch rules, array lengths). A share of the programs has traits, impls, every method call form, bounded generics and dyn values. extern phase (4k / 60k programs): 1-4 `extern \"go\"` bindings to Go packages whose import paths have 1-5 segments, called from main / a helper / a closure / a dead function / never: every import is used, every package qualifier has its import, none is listed twice, no call is lost.",
          PROG_NOTE, "DESIGN.md §5 C02"),
  "C07": ("differential PBT biased to generics + invariants of the monomorphised IR",
-         "Exploration: generator biased to generic functions/types with composite type arguments (tuples, arrays, Vec, Ref, structs, enums, nested); behaviour oracle of C01 plus, on Compilation.mono: unique instance names, no more instances than distinct reachable type-argument tuples computed from the model, every referenced instance exists once, no TParam/TVar/TApp residue.",
+         "Exploration: generator biased to generic functions/types with composite type arguments (tuples, arrays, Vec, Ref, structs, enums, nested); behaviour oracle of C01 plus, on Compilation.mono: unique instance names, no more instances than distinct reachable type-argument tuples computed from the model, every referenced instance exists once, no TParam/TVar/TApp residue. Half of the programs have traits: generic functions with one or two trait bounds, called from main at one or two implementing types (nominal types, an instance of a generic type, integers, string, bool), whose bodies call the bound's methods as p.m(a) and Tr::m(p, a), also from closures.",
          PROG_NOTE, "DESIGN.md §5 C07"),
  "C08": ("differential PBT biased to closures (captures, nesting, calls through variables)",
-         "Exploration: generator biased to closures capturing params/lets/pattern variables/Refs/other closures, nested closures, closures called from other scopes; behaviour oracle of C01. Flows of closures into declared function-typed positions are excluded while KF-05 is open (counted).",
+         "Exploration: generator biased to closures capturing params/lets/pattern variables/Refs/other closures, nested closures, closures called from other scopes; behaviour oracle of C01. Flows of closures into declared function-typed positions are excluded while KF-05 is open (counted). A third of the programs has traits: closures capture trait objects and values of bounded type parameters and call their methods.",
          PROG_NOTE, "DESIGN.md §5 C08"),
  "C09": ("differential PBT on tick traces: effects planted in every operand/argument/condition/branch position",
-         "Exploration: generator biased to effects: print ticks in operands, call arguments, && / || operands, if/match/while conditions and branches, discarded lets, Ref updates, operations that fail at run time; the sequence of printed lines and the failure point of the emitted Go must equal the reference run. A separate phase generates programs with `go`: all schedules (stateless DFS over choice points before every Ref access/print/spawn) are enumerated with the reference interpreter and replayed under miniGo's deterministic scheduler.",
+         "Exploration: generator biased to effects: print ticks in operands, call arguments, && / || operands, if/match/while conditions and branches, discarded lets, Ref updates, operations that fail at run time; the sequence of printed lines and the failure point of the emitted Go must equal the reference run. A third of the programs has traits and trait objects (calls through bounds and dyn receivers, also in the tail position of while bodies). A separate phase generates programs with `go`: all schedules (stateless DFS over choice points before every Ref access/print/spawn) are enumerated with the reference interpreter and replayed under miniGo's deterministic scheduler.",
          PROG_NOTE, "DESIGN.md §5 C09"),
  "C05": ("exhaustive scope skeletons + shadowing-biased random programs; resolution read from the HIR and compared with the generator's binder for every use",
          "Exploration: every sequence of <=5 (quick) / <=6 (thorough) scope operations over two names (let, use, open/close if-block, match arm, closure, while body) is turned into a program, plus random longer skeletons (6-15 operations), wide skeletons (20-60 operations, mostly lets, so that many bindings are in scope at once) and type-directed programs from a 3-name pool in which top-level functions may be spelled like the locals that shadow them. For each accepted program every use's NameRef::Local id must equal the id of the binder the generator intended, a well-scoped program must not be rejected for scoping reasons, an unbound use must be rejected, and the compiled program must print the intended binder's value (reference interpreter vs Go-subset interpreter).",
@@ -41,8 +41,8 @@ CLAIMED = {
          "Trusted: the harness' tree model, printer and AST converter (written from the documented binding powers); derive expansion is avoided in round-trip trees.",
          "DESIGN.md §5 C11"),
  "C04": ("fuzzing-style generated inputs (Unicode/token soups, corpus mutations, deep nesting, JSON artifact mutations) against a crash/diagnostic oracle",
-         "Exploration: random Unicode and token sequences, mutated corpus programs, 1..256-deep nestings of every bracketing form, every depth 1..300 of 14 unclosed openers x 7 contexts x 13 following items (unwind), one fragment repeated 1..600 times inside 21 constructs (repeat), projects on disk disturbed by file-system operations (layouts: non-UTF-8, empty/deleted/duplicated files, directory named x.gom, symlinks, file for directory, case twins, BOM, CRLF ...), and single-leaf/raw mutations of the interface/core artifacts of all corpus projects are pushed through compile, check_package, build_package, read_core and link_cores under panic capture in memory-capped worker processes; Err must carry an error diagnostic, ranges must lie in the text. Absence of crashes beyond the explored inputs is not shown.",
-         "Trusted: in-process calls stand for the CLI subcommands; non-termination is only observable as a watchdog hit (reported as inconclusive, exit 2); resource exhaustion is observed as a worker abort under a 6 GiB address-space cap.",
+         "Exploration: random Unicode and token sequences, mutated corpus programs, 1..256-deep nestings of every bracketing form, every depth 1..300 of 14 unclosed openers x 7 contexts x 13 following items (unwind), one fragment repeated 1..600 times inside 21 constructs (repeat), projects on disk disturbed by file-system operations (layouts: non-UTF-8, empty/deleted/duplicated files, directory named x.gom, symlinks, file for directory, case twins, BOM, CRLF ...), and single-leaf/raw mutations of the interface/core artifacts of all corpus projects are pushed through compile, check_package, build_package, read_core and link_cores under panic capture in memory-capped worker processes; Err must carry an error diagnostic, ranges must lie in the text. cli phase (1.2k / 20k projects): the goml command-line binary itself (built from the working tree) runs `run`, `check` and `build` of every package in dependency order and `link` on projects with a defect planted in a chosen file, mostly not the entry file (parse / lex / type error after 0-400 padding lines, unknown import) and disturbed layouts: it must end with status 0 or 1 (no panic, no signal), say something on stderr when it fails, and every `file: line:col` it prints must lie inside that file. Absence of crashes beyond the explored inputs is not shown.",
+         "Trusted: in-process calls stand for the CLI subcommands except in the cli phase; non-termination is only observable as a watchdog hit (reported as inconclusive, exit 2); resource exhaustion is observed as a worker abort under a 6 GiB address-space cap.",
          "DESIGN.md §5 C04"),
  "C12": ("exhaustive short strings + random/mutated texts; round-trip & tiling oracle on lexer and CST",
          "Exploration: every string of <=3 (quick) / <=4 (thorough) symbols over a 46-symbol alphabet covering each token class is enumerated, plus the exhaustive unwind (depth x opener x context x following item) and repeat (fragment repeated 1..600 times in 21 constructs) families, random token/Unicode soups and corpus mutations; each input is judged by a complete oracle (text round-trip, token tiling on char boundaries, leaves==lexer tokens, ranges in bounds, parse twice equal). Absence beyond the explored inputs is not shown.",
@@ -105,9 +105,9 @@ def main():
         "setup_cmd": "./check --build",
         "hooks": {
             "guard": "goml_verif",
-            "enable": "no hooks are needed so far: every entry point and IR the checks use is `pub`; the harness path-depends on /repo/crates/* and is rebuilt by cargo from the working tree",
+            "enable": "/verif/harness/.cargo/config.toml sets rustflags = [\"--cfg\", \"goml_verif\"] for the harness build (which compiles /repo/crates/* as path dependencies from the working tree); the one hook turns two loops that could spin forever into deterministic panics: the typer's constraint solver after 1000 + 8 x constraints rounds, monomorphisation after 20000 instances. Every other entry point and IR the checks use is `pub`; no other hook exists",
             "baseline_off_cmd": "cd /repo && cargo test --workspace --no-fail-fast --offline",
-            "source_commits": [],
+            "source_commits": ["4b52e68"],
             "add_only": True,
         },
         "engines": [
